@@ -509,6 +509,17 @@ func runCheck(property string) func(run *ev.Run) {
 			bfs.Report(run, n, cfg, st)
 			exh = exh && st.Exhaustive
 		}
+		if property == "C37" {
+			// closing a conflict vote (conflict BeginBlock at an epoch start) when a juror has unstaked meanwhile: the
+			// reveal-phase start state of C20, only chain-halt findings are kept here
+			cfg := bfs.Config{Scenario: "c20/s112-vp1-revealed-unstake", MaxDepth: 5, Deadline: 40 * time.Second}
+			if ev.Tier() == "thorough" {
+				cfg = bfs.Config{Scenario: "c20/s112-vp1-unstake", MaxDepth: 64, Deadline: 5 * time.Minute}
+			}
+			st := bfs.Explore(cfg, filtered)
+			bfs.Report(run, "conflict-vote", cfg, st)
+			exh = exh && st.Exhaustive
+		}
 		if property == "C37" && ev.Tier() == "thorough" {
 			// block processing under staking-module histories (delegate / undelegate / redelegate / cancel-unbonding on
 			// two validators, slash, dualstaking txs): the C06 alphabet, only its chain-halt findings are kept here
